@@ -122,7 +122,7 @@ def run(rep):
     rep.coverage["exhaustive"] = True
     rep.coverage["rule"] = ("p = printed text (impl vs model), r = read back (impl vs spec = the value itself, vs model), e = evaluated JSON-like value, "
                             "l = numeric spelling read (impl vs Spec.require vs model), j = Spec.mathValue/nearestF64 vs math/big+strconv, k = hand-written string/char literal texts. "
-                            "Exhaustive: every code point below 0x300 (thorough: 0x3100) and every strconv.IsPrint transition point as a character and as a one-character string; "
+                            "Exhaustive: every code point below 0x300 (thorough: the whole BMP, below 0x11000) and every strconv.IsPrint transition point as a character and as a one-character string; "
                             "integer grid ±2^k, ±2^k±1, ±10^k; floats: every 16th binade (thorough: every binade) with its neighbours, powers of ten, in both formats; "
                             "every pair of 15 atoms as list, array, dotted pair; every spelling up to length 4 (thorough: 5) over `-+0179abefEFxoUL_.` starting with a sign, digit or dot; "
                             "random nested values to depth 6. Non-trivial = the implementation answered with data")
